@@ -100,7 +100,7 @@ func docReads(d orda.DocumentInTx) string {
 	var sb strings.Builder
 	var walk func(x orda.DocumentInTx, path string, depth int)
 	walk = func(x orda.DocumentInTx, path string, depth int) {
-		if depth > 12 {
+		if depth > 64 {
 			return
 		}
 		switch x.GetTypeOfJSON() {
